@@ -490,36 +490,40 @@ fn rt_body(c: &RtCase, t: &RtTables) -> Outcome {
     }
     // path 3: the same trailers-only response handed to the real client (`client::Grpc` ->
     // `create_response`): a non-OK status must come out as the call's error, equal to the original
-    match catch_unwind(AssertUnwindSafe(|| client_view(status.clone()))) {
-        Err(_) => o.violate("client-panic", "client::Grpc panicked on the into_http response"),
-        Ok(ClientSaw::Stalled) => o.violate("client-stall", "client call did not complete"),
-        Ok(ClientSaw::Error(s)) => {
-            obs.push_str(&format!(" client=ERR {}", fmt_status(&s)));
-            if x.code == tables::OK {
-                o.violate("client-ok-as-error", format!("an OK status came out of the client as the error {}", fmt_status(&s)));
-            } else {
-                if code_num(s.code()) != x.code {
-                    o.violate("client-code", format!("client: code {} came out as {:?}", code_name(x.code), s.code()));
-                }
-                if s.message() != x.msg {
-                    o.violate("client-message", format!("client: message {:?} came out as {:?}", x.msg, s.message()));
-                }
-                if s.details() != x.details {
-                    o.violate("client-details", format!("client: details {} came out as {}", hex(x.details), hex(s.details())));
-                }
-                match observed_metadata(&s.metadata().clone().into_headers(), &["content-type"]) {
-                    Ok(md) if md == x.md => {}
-                    Ok(md) => o.violate("client-metadata", format!("client: metadata came out as {md:?}, expected {:?}", x.md)),
-                    Err(er) => o.violate("client-metadata", format!("client: {er}")),
+    // (3a: the response body is already at its end, 3b: the end of stream arrives separately)
+    for late_end in [false, true] {
+        obs.push_str(if late_end { " [late-end]" } else { "" });
+        match catch_unwind(AssertUnwindSafe(|| client_view(status.clone(), late_end))) {
+            Err(_) => o.violate("client-panic", "client::Grpc panicked on the into_http response"),
+            Ok(ClientSaw::Stalled) => o.violate("client-stall", "client call did not complete"),
+            Ok(ClientSaw::Error(s)) => {
+                obs.push_str(&format!(" client=ERR {}", fmt_status(&s)));
+                if x.code == tables::OK {
+                    o.violate("client-ok-as-error", format!("an OK status came out of the client as the error {}", fmt_status(&s)));
+                } else {
+                    if code_num(s.code()) != x.code {
+                        o.violate("client-code", format!("client: code {} came out as {:?}", code_name(x.code), s.code()));
+                    }
+                    if s.message() != x.msg {
+                        o.violate("client-message", format!("client: message {:?} came out as {:?}", x.msg, s.message()));
+                    }
+                    if s.details() != x.details {
+                        o.violate("client-details", format!("client: details {} came out as {}", hex(x.details), hex(s.details())));
+                    }
+                    match observed_metadata(&s.metadata().clone().into_headers(), &["content-type"]) {
+                        Ok(md) if md == x.md => {}
+                        Ok(md) => o.violate("client-metadata", format!("client: metadata came out as {md:?}, expected {:?}", x.md)),
+                        Err(er) => o.violate("client-metadata", format!("client: {er}")),
+                    }
                 }
             }
-        }
-        Ok(ClientSaw::Response(md, term)) => {
-            obs.push_str(&format!(" client=OK md[{}] then {}", fmt_headers(&md), match &term { None => "END".to_string(), Some(s) => format!("ERR {}", fmt_status(s)) }));
-            if x.code != tables::OK {
-                o.violate("client-error-as-ok", format!("status {} came out of the client as a successful response", code_name(x.code)));
-            } else if let Some(s) = term {
-                o.violate("client-ok-as-error", format!("an OK status came out of the client's stream as the error {}", fmt_status(&s)));
+            Ok(ClientSaw::Response(md, term)) => {
+                obs.push_str(&format!(" client=OK md[{}] then {}", fmt_headers(&md), match &term { None => "END".to_string(), Some(s) => format!("ERR {}", fmt_status(s)) }));
+                if x.code != tables::OK {
+                    o.violate("client-error-as-ok", format!("status {} came out of the client as a successful response", code_name(x.code)));
+                } else if let Some(s) = term {
+                    o.violate("client-ok-as-error", format!("an OK status came out of the client's stream as the error {}", fmt_status(&s)));
+                }
             }
         }
     }
@@ -550,8 +554,41 @@ impl tower_service::Service<http::Request<tonic::body::Body>> for TrailersOnly {
     }
 }
 
-fn client_view(status: Status) -> ClientSaw {
-    let mut grpc = tonic::client::Grpc::new(TrailersOnly(Some(status)));
+/// The same response, but its (empty) body does not announce its end up front: the end of stream
+/// arrives separately, as from a peer that closes the stream with an empty DATA frame.
+struct TrailersOnlyLateEnd(Option<Status>);
+
+impl tower_service::Service<http::Request<tonic::body::Body>> for TrailersOnlyLateEnd {
+    type Response = http::Response<crate::env::ScriptBody>;
+    type Error = Status;
+    type Future = std::future::Ready<Result<Self::Response, Status>>;
+    fn poll_ready(&mut self, _: &mut Context<'_>) -> Poll<Result<(), Status>> {
+        Poll::Ready(Ok(()))
+    }
+    fn call(&mut self, _req: http::Request<tonic::body::Body>) -> Self::Future {
+        let st = self.0.take().unwrap_or_else(|| crate::explore::machinery("transport called twice"));
+        let (parts, _) = st.into_http::<tonic::body::Body>().into_parts();
+        let body = crate::env::ScriptBody::new(Vec::<u8>::new(), None, crate::env::Chunking::Fixed(vec![]), &crate::explore::Chooser::detached());
+        std::future::ready(Ok(http::Response::from_parts(parts, body)))
+    }
+}
+
+fn client_view(status: Status, late_end: bool) -> ClientSaw {
+    if late_end {
+        let grpc = tonic::client::Grpc::new(TrailersOnlyLateEnd(Some(status)));
+        client_view_on(grpc)
+    } else {
+        let grpc = tonic::client::Grpc::new(TrailersOnly(Some(status)));
+        client_view_on(grpc)
+    }
+}
+
+fn client_view_on<T>(mut grpc: tonic::client::Grpc<T>) -> ClientSaw
+where
+    T: tonic::client::GrpcService<tonic::body::Body>,
+    T::ResponseBody: http_body::Body<Data = Bytes> + Send + 'static,
+    <T::ResponseBody as http_body::Body>::Error: Into<Box<dyn std::error::Error + Send + Sync>> + Send,
+{
     let fut = grpc.server_streaming(
         tonic::Request::new(vec![1u8]),
         http::uri::PathAndQuery::from_static("/s/m"),
@@ -1113,6 +1150,9 @@ enum H2Path {
     FromImpl,
     FromError,
     TryFromError,
+    /// a response stream whose body is reset with this code after `n` bytes of a 10-byte message
+    /// frame have arrived (0 = between messages, 3 = inside the prefix, 7 = inside the payload)
+    StreamReset(usize),
 }
 
 #[derive(Clone, Copy, Debug)]
@@ -1132,7 +1172,7 @@ fn h2_cases(tier: Tier) -> Vec<H2Case> {
     reasons.dedup();
     let mut out = vec![];
     for r in reasons {
-        for p in [H2Path::FromImpl, H2Path::FromError, H2Path::TryFromError] {
+        for p in [H2Path::FromImpl, H2Path::FromError, H2Path::TryFromError, H2Path::StreamReset(0), H2Path::StreamReset(3), H2Path::StreamReset(7), H2Path::StreamReset(12)] {
             out.push(H2Case { reason: r, path: p });
         }
     }
@@ -1149,6 +1189,31 @@ fn h2_body(c: &H2Case, _ch: &Chooser) -> Outcome {
             H2Path::FromImpl => Ok(Status::from(err)),
             H2Path::FromError => Ok(Status::from_error(Box::new(err))),
             H2Path::TryFromError => Status::try_from_error(Box::new(err)).map_err(|e| e.to_string()),
+            H2Path::StreamReset(n) => {
+                // one complete 5-byte message, then a second frame cut short by the reset
+                let mut data = vec![0u8, 0, 0, 0, 0];
+                data.extend_from_slice(&[0u8, 0, 0, 0, 5, 1, 2, 3, 4, 5]);
+                let at = if n >= 12 { 5 } else { 5 + n };
+                let body = crate::env::ScriptBody::new(data, None, crate::env::Chunking::Fixed(vec![]), &crate::explore::Chooser::detached())
+                    .with_end(crate::env::BodyEnd::Error { at, status: Status::from_error(Box::new(err)) });
+                let mut s = tonic::codec::Streaming::new_response(RawCodec::default().decoder(), body, http::StatusCode::OK, None, None);
+                let mut cx = Context::from_waker(std::task::Waker::noop());
+                let mut found = Err("the stream never reported an error".to_string());
+                for _ in 0..64 {
+                    match std::pin::Pin::new(&mut s).poll_next(&mut cx) {
+                        Poll::Ready(Some(Err(e))) => {
+                            found = Ok(e);
+                            break;
+                        }
+                        Poll::Ready(None) => {
+                            found = Err("the stream ended cleanly although its body was reset".to_string());
+                            break;
+                        }
+                        _ => {}
+                    }
+                }
+                found
+            }
         };
         // and back (recorded only: the property says nothing about Status -> h2)
         let back = st.as_ref().ok().map(|s| {
@@ -1205,7 +1270,7 @@ pub fn property(tier: Tier) -> Property {
     let roundtrip = Section::new(
         "roundtrip",
         cfg.clone(),
-        "cases: (A) every message of the menu (\"\", every ASCII char 00-7F, every ordered pair [thorough: triple] over a 20-char class menu of controls/space/%/\"#<>?`{}/DEL/letters/hex digits, %-followed-by-hex literals, 16 multi-byte scalars alone and next to each class char, lengths 3..64 [thorough ..8191]) x all 17 codes; (B) every details byte string of length <= 2 (65 793), every string of length 3..=6 [thorough 3..=7] over {00,3e,3f,7f,80,ff}, every length 8..=70 and 255/256/257/1000 x 3 fill patterns; (C) 17 codes x 8 messages x 8 details x every metadata map of the menu (ascii/binary/repeated/interleaved keys, all six reserved names forged). Each status is written with add_header and with into_http; the raw header bytes are judged by hand-written percent/base64 decoders and must be legal field values, then from_header_map must return an equal status (code, message, details, sanitized metadata in per-key order; content-type of into_http ignored); the into_http response is also handed to the real client (client::Grpc::server_streaming -> create_response) and the error it returns must equal the original status (OK: successful response, clean end). Non-trivial = message has a byte that must be percent-encoded, or details non-empty, or metadata non-empty",
+        "cases: (A) every message of the menu (\"\", every ASCII char 00-7F, every ordered pair [thorough: triple] over a 20-char class menu of controls/space/%/\"#<>?`{}/DEL/letters/hex digits, %-followed-by-hex literals, 16 multi-byte scalars alone and next to each class char, lengths 3..64 [thorough ..8191]) x all 17 codes; (B) every details byte string of length <= 2 (65 793), every string of length 3..=6 [thorough 3..=7] over {00,3e,3f,7f,80,ff}, every length 8..=70 and 255/256/257/1000 x 3 fill patterns; (C) 17 codes x 8 messages x 8 details x every metadata map of the menu (ascii/binary/repeated/interleaved keys, all six reserved names forged). Each status is written with add_header and with into_http; the raw header bytes are judged by hand-written percent/base64 decoders and must be legal field values, then from_header_map must return an equal status (code, message, details, sanitized metadata in per-key order; content-type of into_http ignored); the into_http response is also handed to the real client (client::Grpc::server_streaming -> create_response), once with a body that is already at its end and once with a body whose end of stream arrives separately (a peer closing the stream with an empty DATA frame), and the error it returns must equal the original status (OK: successful response, clean end). Non-trivial = message has a byte that must be percent-encoded, or details non-empty, or metadata non-empty",
         rt_list,
         move |c: &RtCase| {
             format!(
@@ -1243,7 +1308,7 @@ pub fn property(tier: Tier) -> Property {
     let h2 = Section::new(
         "h2-table",
         cfg,
-        "cases: HTTP/2 error codes 0..=13, 14, 15, 16, 255, 256, 2^31-1, 2^31, 2^32-1 [thorough: 0..=255 and every power of two] x {From<h2::Error> for Status, Status::from_error(Box), Status::try_from_error(Box)}. Oracle: PROTOCOL-HTTP2.md error table (STREAM_CLOSED, HTTP_1_1_REQUIRED and unknown codes unconstrained: no panic only). Non-trivial = the table constrains the code",
+        "cases: HTTP/2 error codes 0..=13, 14, 15, 16, 255, 256, 2^31-1, 2^31, 2^32-1 [thorough: 0..=255 and every power of two] x {From<h2::Error> for Status, Status::from_error(Box), Status::try_from_error(Box), a response stream (Streaming::new_response) whose body is reset with that code between messages / 3 bytes into a prefix / 2 bytes into a payload / right after a complete message}. Oracle: PROTOCOL-HTTP2.md error table (STREAM_CLOSED, HTTP_1_1_REQUIRED and unknown codes unconstrained: no panic only). Non-trivial = the table constrains the code",
         h2_cases(tier),
         |c: &H2Case| format!("reason={} via {:?}", h2_name(c.reason), c.path),
         h2_body,
